@@ -34,6 +34,9 @@ pub struct Report {
     pub extra: Vec<(String, Json)>,
     /// machinery errors: never verdicts
     pub errors: Vec<String>,
+    /// breaches of the property being decided (VH_PROP) recorded / found again
+    relevant: usize,
+    repeats: u64,
 }
 
 pub const ALL_PROPS: [&str; 20] = [
@@ -41,6 +44,12 @@ pub const ALL_PROPS: [&str; 20] = [
 ];
 
 pub const MAX_VIOLATIONS_PER_INSTANCE: usize = 5;
+
+/// The property being decided (set by the driver), if any.
+pub fn only_prop() -> Option<&'static str> {
+    static P: std::sync::OnceLock<Option<String>> = std::sync::OnceLock::new();
+    P.get_or_init(|| std::env::var("VH_PROP").ok().filter(|p| !p.is_empty())).as_deref()
+}
 pub const MAX_SAMPLES_PER_INSTANCE: usize = 3;
 
 impl Report {
@@ -58,6 +67,8 @@ impl Report {
             violations: vec![],
             extra: vec![],
             errors: vec![],
+            relevant: 0,
+            repeats: 0,
         }
     }
 
@@ -83,17 +94,30 @@ impl Report {
 
     /// Record a violation (deduplicated on signature, capped).
     pub fn violation(&mut self, v: Violation) {
-        if self.violations.len() >= MAX_VIOLATIONS_PER_INSTANCE {
+        // when one property is being decided, only its breaches count towards "enough recorded"
+        let rel = match only_prop() {
+            Some(p) => v.props.iter().any(|q| *q == p),
+            None => true,
+        };
+        if self.violations.iter().any(|x| x.sig == v.sig && x.props == v.props) {
+            if rel {
+                self.repeats += 1;
+            }
             return;
         }
-        if self.violations.iter().any(|x| x.sig == v.sig && x.props == v.props) {
+        if self.violations.len() >= 4 * MAX_VIOLATIONS_PER_INSTANCE || (rel && self.relevant >= MAX_VIOLATIONS_PER_INSTANCE) {
             return;
+        }
+        if rel {
+            self.relevant += 1;
         }
         self.violations.push(v);
     }
 
+    /// Enough has been recorded: the instance has failed and need not be evaluated any further (the
+    /// same breach found again and again, e.g. by every case of a sweep, also counts).
     pub fn full(&self) -> bool {
-        self.violations.len() >= MAX_VIOLATIONS_PER_INSTANCE
+        self.relevant >= MAX_VIOLATIONS_PER_INSTANCE || self.repeats >= 200
     }
 
     pub fn extra(&mut self, k: &str, v: impl Into<Json>) {
